@@ -79,7 +79,7 @@ if TYPE_CHECKING:
     from .file import _GitFile
 
 from .errors import PackedRefsException, RefFormatError
-from .file import GitFile, ensure_dir_exists
+from .file import FileLocked, GitFile, ensure_dir_exists
 from .objects import ZERO_SHA, ObjectID, git_line, valid_hexsha
 
 Ref = NewType("Ref", bytes)
@@ -1049,6 +1049,19 @@ class DiskRefsContainer(RefsContainer):
           new_refs: A mapping of ref names to targets; if a target is None that
             means remove the ref
         """
+        self._add_packed_refs(new_refs, only_if_unchanged=False)
+
+    def _add_packed_refs(
+        self, new_refs: Mapping[Ref, ObjectID | None], only_if_unchanged: bool
+    ) -> None:
+        """Add the given refs as packed refs and drop their loose files.
+
+        Args:
+          new_refs: A mapping of ref names to targets; if a target is None that
+            means remove the ref
+          only_if_unchanged: Only remove a loose ref if it still has the value
+            that was packed (used when packing refs that were read earlier)
+        """
         if not new_refs:
             return
 
@@ -1064,12 +1077,6 @@ class DiskRefsContainer(RefsContainer):
                     if ref == HEADREF:
                         raise ValueError("cannot pack HEAD")
 
-                    # remove any loose refs pointing to this one -- please
-                    # note that this bypasses remove_if_equals as we don't
-                    # want to affect packed refs in here
-                    with suppress(OSError):
-                        os.remove(self.refpath(ref))
-
                     if target is not None:
                         packed_refs[ref] = target
                     else:
@@ -1082,6 +1089,42 @@ class DiskRefsContainer(RefsContainer):
             # lock is released but before the stat. Reload on the next access
             # instead.
             self._invalidate_packed_refs_cache()
+
+        # Only now that the new packed-refs file is in place, remove the loose
+        # refs it supersedes (a crash before this point loses nothing, since
+        # loose refs take precedence).  Like git, do so under each ref's own
+        # lock and, when packing values that were read before taking any lock,
+        # only if the ref still has the value that was packed, so that a
+        # concurrent update of the ref is never thrown away.
+        for ref, target in new_refs.items():
+            self._prune_loose_ref(ref, target if only_if_unchanged else None)
+
+    def _prune_loose_ref(self, name: Ref, target: ObjectID | None) -> None:
+        """Remove a loose ref that has been superseded by packed-refs.
+
+        Args:
+          name: Name of the ref
+          target: If not None, only remove the loose ref if it still has this
+            value
+        """
+        filename = self.refpath(name)
+        try:
+            f = GitFile(filename, "wb")
+        except OSError:
+            # No loose ref directory, so no loose ref.
+            return
+        except FileLocked:
+            # Somebody is updating the ref; its loose value wins anyway.
+            return
+        try:
+            if target is not None and self.read_loose_ref(name) != target:
+                return
+            # note that this bypasses remove_if_equals as we don't want to
+            # affect packed refs in here
+            with suppress(OSError):
+                os.remove(filename)
+        finally:
+            f.abort()
 
     def get_peeled(self, name: Ref) -> ObjectID | None:
         """Return the cached peeled value of a ref, if available.
@@ -1460,7 +1503,7 @@ class DiskRefsContainer(RefsContainer):
                     pass
 
         if refs_to_pack:
-            self.add_packed_refs(refs_to_pack)
+            self._add_packed_refs(refs_to_pack, only_if_unchanged=True)
 
 
 def _split_ref_line(line: bytes) -> tuple[ObjectID, Ref]:
